@@ -173,6 +173,45 @@ class PathEnumerator:
         f = self._frame(fr, p)
         if isinstance(st, (ast.Pass, ast.Import, ast.ImportFrom, ast.Global, ast.Nonlocal)):
             return [p]
+        if isinstance(st, ast.Expr) and isinstance(st.value, ast.Call):
+            c0 = st.value
+            # setattr(X, 'name', v) as a statement is the store X.name = v
+            if isinstance(c0.func, ast.Name) and c0.func.id == "setattr" and len(c0.args) == 3 and not c0.keywords \
+                    and isinstance(c0.args[1], ast.Constant) and isinstance(c0.args[1].value, str):
+                tgt = ast.Attribute(value=c0.args[0], attr=c0.args[1].value, ctx=ast.Store())
+                ast.copy_location(tgt, st)
+                self._assign(tgt, ev.expr(c0.args[2], f), p, f, st)
+                return [p]
+            # registrations on an ExitStack of this function
+            if isinstance(c0.func, ast.Attribute) and isinstance(c0.func.value, ast.Name) and p.env.get(c0.func.value.id) == ("exitstack", c0.func.value.id) \
+                    and c0.func.attr in ("callback", "enter_context") and c0.args and not c0.keywords:
+                key = "@exitstack:" + c0.func.value.id
+                items = list(p.env.get(key, ("tuple", ()))[1])
+                if c0.func.attr == "enter_context" and len(c0.args) == 1:
+                    v = ev.expr(c0.args[0], f)
+                    p.events.append(Event("with", st, v))
+                    items.append((("const", "endwith"), None, v))
+                else:
+                    fn0, rest = c0.args[0], c0.args[1:]
+                    if isinstance(fn0, ast.Name) and fn0.id == "setattr" and len(rest) == 3 and isinstance(rest[1], ast.Constant) and isinstance(rest[1].value, str):
+                        term = ("store", ev.expr(rest[0], f), rest[1].value, ev.expr(rest[2], f))
+                        # keep the syntax of the stored value (rules ask where it comes from)
+                        syn = ast.Assign(targets=[ast.Attribute(value=rest[0], attr=rest[1].value, ctx=ast.Store())], value=rest[2])
+                        ast.copy_location(syn, st)
+                        ast.fix_missing_locations(syn)
+                        items.append((("const", "callback"), syn, term))
+                        p.env[key] = ("tuple", tuple(items))
+                        return [p]
+                    if False:
+                        pass
+                    else:
+                        call_node = ast.Call(func=fn0, args=list(rest), keywords=[])
+                        ast.copy_location(call_node, st)
+                        ast.fix_missing_locations(call_node)
+                        term = ev.expr(call_node, f)
+                    items.append((("const", "callback"), None, term))
+                p.env[key] = ("tuple", tuple(items))
+                return [p]
         call = self._local_call(st, p, fr)
         if call is not None:
             return self._inline_local(st, call, p, fr)
@@ -277,14 +316,40 @@ class PathEnumerator:
         if isinstance(st, (ast.For, ast.While)):
             return self._loop(st, p, fr)
         if isinstance(st, ast.With):
+            stacks = []
             for item in st.items:
-                v = ev.expr(item.context_expr, f)
+                ce = item.context_expr
+                if isinstance(ce, ast.Call) and not ce.args and not ce.keywords and (
+                        (isinstance(ce.func, ast.Name) and ce.func.id == "ExitStack") or (isinstance(ce.func, ast.Attribute) and ce.func.attr == "ExitStack")) \
+                        and isinstance(item.optional_vars, ast.Name):
+                    # ``with ExitStack() as s``: what is registered on s runs, last in first out, on EVERY exit of the block --
+                    # the try / finally it abbreviates
+                    name = item.optional_vars.id
+                    p.env[name] = ("exitstack", name)
+                    p.env["@exitstack:" + name] = ("tuple", ())
+                    p.events.append(Event("try", st))
+                    stacks.append(name)
+                    continue
+                v = ev.expr(ce, f)
                 p.events.append(Event("with", st, v))
                 if item.optional_vars is not None and isinstance(item.optional_vars, ast.Name):
                     p.env[item.optional_vars.id] = ("withvar", item.optional_vars.id, show(v))
             outs = self.block(st.body, [p], fr)
             for q in outs:
-                q.events.append(Event("endwith", st))
+                for name in reversed(stacks):
+                    q.events.append(Event("finally", st))
+                    for kind, node, term in reversed(q.env.get("@exitstack:" + name, ("tuple", ()))[1]):
+                        if kind == ("const", "endwith"):
+                            q.events.append(Event("endwith", st))
+                        elif term[0] == "store":
+                            q.events.append(Event("store", node if node is not None else st, term))
+                            if term[1][0] == "cls":
+                                q.env[f"@{term[1][1]}.{term[2]}"] = term[3]
+                        else:
+                            q.events.append(Event("effect", st, term))
+                for item in st.items:
+                    if not (isinstance(item.optional_vars, ast.Name) and item.optional_vars.id in stacks):
+                        q.events.append(Event("endwith", st))
             return outs
         if isinstance(st, ast.Try):
             p.events.append(Event("try", st))
